@@ -84,7 +84,7 @@ def step (d : DSt) (toks : List String) : DSt × String :=
           | some p => (learn d p.bytes, some p, if arg? toks "hassig" == some "0" then none else some (Sig.mk p.bytes))
           | none => (d, none, none)
         let rec' : Rec := { hrs := ⟨lh, lr, ls⟩, sb := sb, sig := sg }
-        let d2 := { d1 with s := { d1.s with mem := rec', disk := rec', temp := none, pc := .idle } }
+        let d2 := { d1 with s := { d1.s with mem := rec', shadow := rec', disk := rec', temp := none, pc := .idle } }
         (d2, showBoth d2)
       | _, _, _ => (d, "bad-op")
     | "signvote" | "signprop" =>
